@@ -14,7 +14,7 @@ from concretise import NONE, MISSING
 UNKNOWN = -999                                            # a value the theme cannot name (itself a divergence)
 UNKNOWN_POINT = {"t": UNKNOWN, "m": UNKNOWN, "tg": [], "fd": []}
 
-INT_OPS = {"insert", "insert_multiple", "remove", "drop_measurement", "update", "update_all", "count", "len", "contains"}
+INT_OPS = {"insert", "insert_multiple", "remove", "drop_measurement", "update", "update_all", "count", "len", "contains", "bad"}
 NONE_OPS = {"remove_all", "reindex", "reopen"}
 
 
@@ -69,6 +69,30 @@ class Db:
         kw = {k: v for k, v in self.csv_opts.items() if k not in ("encoding", "flush_on_insert", "access_mode", "create_dirs", "newline")}
         with open(self.path, "r", encoding=enc, newline="") as fh:
             return list(csv.reader(fh, **kw))
+
+    def decode_bytes(self, data):
+        """Decode a snapshot of the file's bytes with the independent reader; an undecodable
+        snapshot becomes a one-element list holding the UNKNOWN point."""
+        try:
+            enc = self.csv_opts.get("encoding") or "utf-8"
+            text = data.decode(enc)
+            kw = {k: v for k, v in self.csv_opts.items() if k not in ("encoding", "flush_on_insert", "access_mode", "create_dirs", "newline")}
+            rows = list(csv.reader(io.StringIO(text, newline=""), **kw))
+            return [self.decode_row(r) for r in rows]
+        except Exception:
+            return [dict(UNKNOWN_POINT)]
+
+    def reopened_contents(self):
+        """Contents seen by a fresh read-only TinyFlux on the same file."""
+        try:
+            kw = {k: v for k, v in self.csv_opts.items() if k not in ("access_mode", "flush_on_insert")}
+            db2 = self.tf.TinyFlux(self.path, access_mode="r", auto_index=False, **kw)
+            try:
+                return [self.abs_point(p) for p in db2.all(sorted=False)]
+            finally:
+                db2.close()
+        except Exception:
+            return [dict(UNKNOWN_POINT)]
 
     def decode_row(self, row):
         """Independent decoder written from the documented row layout."""
@@ -197,6 +221,8 @@ class Db:
             if m != NONE:
                 return db.update(q, _measurement=self.meas_name(m), **kw)
             return db.update(q, **kw)
+        if op == "bad":
+            return self._run_bad(a)
         if op == "reindex":
             import contextlib
             with contextlib.redirect_stdout(io.StringIO()):      # "Index already valid." is printed, not returned
@@ -259,6 +285,52 @@ class Db:
             return [self.abs_val("time", v) for v in r]
         raise RuntimeError("driver: unknown op %r" % op)
 
+    # ---- C14: wrongly typed values -------------------------------------------------------
+    BAD_VALUES = {"int": 7, "int0": 0, "float": 1.5, "float0": 0.0, "bool": True, "bool0": False,
+                  "bytes": b"x", "bytes0": b"", "none": None, "list": ["a"], "list0": [],
+                  "dict": {"a": 1}, "dict0": {}, "str": "text", "str0": ""}
+
+    def _run_bad(self, a):
+        """Supply one wrongly typed value through one API entry point (spec: BadCells)."""
+        tf, th, db = self.tf, self.th, self.db
+        bad = self.BAD_VALUES[a["kind"]]
+        slot, entry = a["slot"], a["entry"]
+        good_t, good_m = th.val("time", 3), th.val("meas", 1)
+        tk, fk = th.key("tag", 1), th.key("field", 1)
+
+        def arg():
+            if slot == "time":
+                return "time", bad
+            if slot == "measurement":
+                return "measurement", bad
+            if slot == "tagkey":
+                return "tags", {bad: th.val("tag", 1)}
+            if slot == "tagvalue":
+                return "tags", {tk: bad}
+            if slot == "fieldkey":
+                return "fields", {bad: th.val("field", 1)}
+            return "fields", {fk: bad}
+        name, value = arg()
+        if entry == "ctor":
+            kw = {"time": good_t, "measurement": good_m}
+            kw[name] = value
+            tf.Point(**kw)
+            return 0
+        if entry == "setter":
+            p = tf.Point(time=good_t, measurement=good_m, tags={tk: th.val("tag", 1)}, fields={fk: th.val("field", 1)})
+            setattr(p, name, value)
+            return 0
+        if entry == "insert_meas":
+            return db.insert(tf.Point(time=good_t, measurement=good_m), measurement=bad)
+        q = th.query(tf, a["q"], self.cache)
+        static = entry.endswith("_static")
+        kw = {name: value} if static else {name: (lambda old, v=value: v)}
+        if entry.startswith("update_all"):
+            return db.update_all(**kw)
+        if entry.startswith("handle_"):
+            return db.measurement(self.meas_name(a["m"])).update(q, **kw)
+        return db.update(q, **kw)
+
     def abs_val(self, slot, v):
         try:
             return self.th.rank(slot, v)
@@ -280,7 +352,7 @@ class Db:
         rank_t, un_t = th._rank["time"], th._unrank["time"]
         rank_m, un_m = th._rank["meas"], th._unrank["meas"]
         if u["tk"] == 1:
-            kw["time"] = th.val("time", u["tv"])
+            kw["time"] = th.zoned(u["tv"], 2)
         elif u["tk"] == 2:
             kw["time"] = lambda t, d=u["tv"]: un_t[rank_t[t.astimezone(timezone.utc)] + d]
         if u["mk"] == 1:
